@@ -14,8 +14,9 @@ def gen(tier, rng):
     n = 220 if tier == 'quick' else 5000
     out = []
     for i in range(n):
+        # small filter groups and 3-5 keys spread over the key space: closing blobs merges ranges that grow on both sides
         g = Gen(rng, queries=('R', 'C', 'RD', 'RW'), maint=0.45, restart=0.05, bg=0.03, deletes=0.15,
-                nops=rng.randrange(8, 22))
+                nops=rng.randrange(8, 26), group=rng.choice([2, 2, 2, 3, 8]), nkeys=rng.choice([3, 4, 5]))
         out.append(('hist%05d' % i, g.build()))
     return out
 
